@@ -9,7 +9,6 @@ RULE = ("histories of parse requests on ONE DefaultArgsParser: all sequences of 
         "requests (5 formats, two of them sharing every name with another but not the flags, x strict/lenient x succeeding lines and each error kind), seeded random to length 6; each result compared "
         "with a fresh parser's; argv list, RawArgs tokens/option_tokens and the format's listings snapshotted before/after; non-trivial = >= 2 requests of which >= 1 sets "
         "an option; distinct by history")
-THEOREMS = ["parse_ignores_scratch", "reuse_eq_fresh"]
 TRUSTED = ["'does not alter the list / raw arguments / format it was handed' is about Python aliasing: carried by snapshot comparison (testing)"]
 ASSUMPTIONS = []
 
